@@ -165,6 +165,10 @@ def gen_div_arith(rng, N):
             s["edges2"] = []
         if rng.random() < 0.3:
             s["B"] = list(s["A"])
+        elif rng.random() < 0.15:
+            s["B"] = [0] * n
+        if rng.random() < 0.1:
+            s["A"] = [0] * n
         out.append(s)
     return out
 
@@ -325,8 +329,16 @@ def gen_lin_equiv(rng, N, nmax=6):
         g, E = gen.gen_graph(rng, 2, nmax)
         n = g["n"]
         d1, _, _ = gen.gen_divisor(rng, n, g["_genus"], mag=4)
-        kind = rng.choice(["identical", "script", "script", "samedeg", "samedeg", "diffdeg"])
-        if kind == "identical":
+        kind = rng.choice(["identical", "script", "script", "samedeg", "samedeg", "diffdeg", "vszero", "vszero"])
+        if kind == "vszero":
+            # one side is the zero divisor, the other has degree 0 (principal or not)
+            d1 = apply_script(n, E, [0] * n, random_script(rng, n)) if rng.random() < 0.6 else list(d1)
+            if sum(d1) != 0:
+                d1[rng.randrange(n)] -= sum(d1)
+            d2 = [0] * n
+            if rng.random() < 0.3:
+                d1, d2 = d2, d1
+        elif kind == "identical":
             d2 = list(d1)
         elif kind == "script":
             d2 = apply_script(n, E, d1, random_script(rng, n))
@@ -473,5 +485,26 @@ def gen_winnable_hist(rng, N, nmax=5):
             adds.append([a, b, rng.randint(1, 2)])
         s = dict(g)
         s.update(op="winnable_hist", deg=d, adds=adds, _band=band, _debt=debt)
+        out.append(s)
+    return out
+
+
+def gen_elements(rng, N, nmax=6):
+    out = []
+    for _ in range(N):
+        g, E = gen.gen_graph(rng, 1, nmax)
+        n = g["n"]
+        g["names"] = gen.gen_names(rng, n, style=rng.choice(["v", "letters", "unicode", "blanks", "long"]))
+        pairs = list(E.keys())
+        orient = []
+        for a, b in pairs:
+            r = rng.random()
+            if r < 0.4:
+                orient.append([a, b])
+            elif r < 0.8:
+                orient.append([b, a])
+        rng.shuffle(orient)
+        s = dict(g)
+        s.update(op="elements", deg=[rng.randint(-9, 12) for _ in range(n)], orient=orient)
         out.append(s)
     return out
